@@ -244,7 +244,10 @@ def run_scenarios(scen_lines, feat='default', tag='run', keep=False):
     if binp is None:
         return {'build_failed': True, 'build_output': bout, 'feat': feat}
     work = ensure(os.path.join(OUT, 'work', '%s.%d' % (tag, os.getpid())))
-    nsh = max(1, min(NJOBS, len(scen_lines) // 40 + 1))
+    # at most NJOBS shards run at a time; a shard is bounded (the validating JVM reads its whole trace: 15 000 scenarios
+    # are about 250 000 events, comfortable in a 2 GB heap - a thorough unit of 700 000 scenarios in 10 shards was not)
+    shard_max = int(os.environ.get('VERIF_SHARD_MAX', '15000'))
+    nsh = max(1, min(NJOBS, len(scen_lines) // 40 + 1), -(-len(scen_lines) // shard_max))
     shards = [[] for _ in range(nsh)]
     for i, l in enumerate(scen_lines):
         shards[i % nsh].append(l)
@@ -255,7 +258,7 @@ def run_scenarios(scen_lines, feat='default', tag='run', keep=False):
             f.write('\n'.join(sh) + '\n')
         paths.append(pth)
     t0 = time.time()
-    with cf.ThreadPoolExecutor(max_workers=nsh) as ex:
+    with cf.ThreadPoolExecutor(max_workers=min(nsh, NJOBS)) as ex:
         results = list(ex.map(lambda a: run_shard(binp, a[1], work, a[0]), enumerate(paths)))
     agg = {'feat': feat, 'shards': nsh, 'scenarios': len(scen_lines), 'events': sum(r['events'] for r in results),
            'fails': [], 'crashes': [], 'tool_errors': [], 'wall_s': time.time() - t0, 'work': work,
